@@ -1,0 +1,15 @@
+//go:build verif
+
+// Contracts for the deductive verifier in /verif (comment-only file; see /verif/DESIGN.md).
+package findcoordinator
+
+//@ property C04 C12
+
+// Wire layout per version, from the Kafka protocol definition of this API (field order, types and the versions each field
+// exists in); the encoders and decoders are compiled from the struct tags, so the tags are checked against it.
+//@ wire Request
+//@   layout v0 Key string
+//@   layout v1..v2 Key string, KeyType int8
+//@ wire Response
+//@   layout v0 ErrorCode int16, NodeID int32, Host string, Port int32
+//@   layout v1..v2 ThrottleTimeMs int32, ErrorCode int16, ErrorMessage string?, NodeID int32, Host string, Port int32
